@@ -485,6 +485,9 @@ func c04ErrToken(w *World, r *Report) {
 	setErrM := w.Method("xpath", "CommonLex", "SetError")
 	errField := w.Field("xpath", "CommonLex", "err")
 	n := 0
+	sym := NewSym(w)
+	sym.Expand = false
+	rec := &errRecorder{sym: sym, setErr: map[*types.Func]bool{setErrI: true, setErrM: true}, errField: errField}
 	for _, pkgKey := range []string{"xpath", "xpath/grammars/expr", "xpath/grammars/leafref", "xpath/grammars/path_eval"} {
 		p := w.Pkg(pkgKey)
 		for _, fd := range funcDecls(p) {
@@ -499,60 +502,17 @@ func c04ErrToken(w *World, r *Report) {
 			if bt, ok := p.TypesInfo.TypeOf(fd.Type.Results.List[0].Type).(*types.Basic); !ok || bt.Kind() != types.Int {
 				continue
 			}
-			ast.Inspect(fd.Body, func(nd ast.Node) bool {
-				blk, ok := nd.(*ast.BlockStmt)
-				var list []ast.Stmt
-				if ok {
-					list = blk.List
-				} else if cc, ok := nd.(*ast.CaseClause); ok {
-					list = cc.Body
-				} else {
-					return true
-				}
-				for i, s := range list {
-					ret, ok := s.(*ast.ReturnStmt)
-					if !ok || len(ret.Results) == 0 {
-						continue
-					}
-					v, isC := ConstInt(p, ret.Results[0])
-					if !isC || v != errTok {
-						continue
-					}
-					// a value, not the token position? only functions returning (int, TokVal) or int
-					n++
-					set := false
-					for _, prev := range list[:i] {
-						ast.Inspect(prev, func(x ast.Node) bool {
-							switch y := x.(type) {
-							case *ast.CallExpr:
-								if c := calleeOf(p, y); c == setErrI || c == setErrM {
-									set = true
-								}
-							case *ast.AssignStmt:
-								for _, l := range y.Lhs {
-									if fieldOfSel(p, l) == errField {
-										set = true
-									}
-								}
-							}
-							return true
-						})
-					}
-					// or guarded by `if x.err != nil`
-					guarded := false
-					ast.Inspect(fd.Body, func(x ast.Node) bool {
-						if is, ok := x.(*ast.IfStmt); ok && is.Body == blk {
-							if be, ok := ast.Unparen(is.Cond).(*ast.BinaryExpr); ok && be.Op == token.NEQ && isNilIdent(p, be.Y) && fieldOfSel(p, be.X) == errField {
-								guarded = true
-							}
-						}
-						return true
-					})
-					r.Check(set || guarded, "R04.6", fmt.Sprintf("%s.%s ERR exit #%d", pkgKey, funcDeclName(fd), n), ret.Pos(),
-						"error recorded before ERR", "returns the ERR token without recording a lexer error: if the parser recovers nothing reports the failure")
-				}
-				return true
-			})
+			tf, _ := p.TypesInfo.Defs[fd.Name].(*types.Func)
+			sf := w.SSAFunc(tf)
+			if sf == nil || fd.Body == nil {
+				continue
+			}
+			for _, ex := range errTokenExits(sf, errTok) {
+				n++
+				ok := rec.recorded(sf, ex.blk, 0)
+				r.Check(ok, "R04.6", fmt.Sprintf("%s.%s ERR exit #%d", pkgKey, funcDeclName(fd), n), ex.pos,
+					"error recorded before ERR", "returns the ERR token without recording a lexer error: if the parser recovers nothing reports the failure")
+			}
 		}
 	}
 	// the Lex type switches: default arm must yield ERR
@@ -1059,4 +1019,190 @@ func c04DecodedOnly(w *World, r *Report) {
 		}
 		r.Check(why == "", "R04.22", f.Name()+" hands out decoded characters only", f.Pos(), "peek | EOF | ERR | DecodeRune result with the invalid-encoding case excluded", why+": a byte sequence that is not UTF-8 (e.g. a lone 0x80 inside a literal) is accepted as part of an expression")
 	}
+}
+
+// errExit: a place from which a function leaves with the ERR token as its
+// first result: the returning block, or, when the result is chosen by control
+// flow, the predecessor that chose ERR.
+type errExit struct {
+	blk *ssa.BasicBlock
+	pos token.Pos
+}
+
+func errTokenExits(f *ssa.Function, errTok int64) []errExit {
+	isErr := func(v ssa.Value) bool {
+		k, ok := v.(*ssa.Const)
+		if !ok || k.Value == nil || k.Value.Kind() != constant.Int {
+			return false
+		}
+		iv, exact := constant.Int64Val(k.Value)
+		return exact && iv == errTok
+	}
+	var out []errExit
+	for _, b := range f.Blocks {
+		ret, ok := b.Instrs[len(b.Instrs)-1].(*ssa.Return)
+		if !ok || len(ret.Results) == 0 || b == f.Recover {
+			continue
+		}
+		switch v := unspill(ret.Results[0]).(type) {
+		case *ssa.Const:
+			if isErr(v) {
+				out = append(out, errExit{b, ret.Pos()})
+			}
+		case *ssa.Phi:
+			for i, e := range v.Edges {
+				if isErr(e) {
+					out = append(out, errExit{v.Block().Preds[i], ret.Pos()})
+				}
+			}
+		}
+	}
+	return out
+}
+
+// errRecorder decides "every way to this block has recorded a lexer error":
+// through a SetError call, a store to CommonLex.err, the true side of an
+// `err != nil` test on that field, or a call of a module helper all of whose
+// exits that are compatible with the way taken here have recorded one.
+type errRecorder struct {
+	sym      *Sym
+	setErr   map[*types.Func]bool
+	errField *types.Var
+}
+
+func (e *errRecorder) isErrLoad(v ssa.Value) bool {
+	switch x := v.(type) {
+	case *ssa.UnOp:
+		if x.Op == token.MUL {
+			if fa, ok := x.X.(*ssa.FieldAddr); ok {
+				return fieldAddrVar(fa) == e.errField
+			}
+		}
+	case *ssa.Call:
+		if x.Call.IsInvoke() {
+			return nm(x.Call.Method) == "GetError"
+		}
+		if g := x.Call.StaticCallee(); g != nil {
+			return g.Name() == "GetError"
+		}
+	}
+	return false
+}
+
+func (e *errRecorder) recordsDirectly(in ssa.Instruction) bool {
+	switch x := in.(type) {
+	case *ssa.Store:
+		if fa, ok := x.Addr.(*ssa.FieldAddr); ok && fieldAddrVar(fa) == e.errField {
+			if k, isK := x.Val.(*ssa.Const); !isK || !k.IsNil() {
+				return true
+			}
+		}
+	case ssa.CallInstruction:
+		cc := x.Common()
+		if cc.IsInvoke() {
+			return e.setErr[cc.Method]
+		}
+		if g := cc.StaticCallee(); g != nil {
+			if o, ok := g.Object().(*types.Func); ok {
+				return e.setErr[o]
+			}
+		}
+	}
+	return false
+}
+
+func (e *errRecorder) recorded(f *ssa.Function, target *ssa.BasicBlock, depth int) bool {
+	// the condition of reaching the target, to compare with what a helper
+	// returned on its exits that recorded nothing
+	var pc *pcF
+	recordsFor := func(in ssa.Instruction) bool {
+		if e.recordsDirectly(in) {
+			return true
+		}
+		c, ok := in.(*ssa.Call)
+		if !ok || depth >= 3 {
+			return false
+		}
+		h := c.Call.StaticCallee()
+		if h == nil || h.Blocks == nil || h == f || !strings.HasPrefix(pkgPathOf(h), modPath) {
+			return false
+		}
+		some := false
+		for _, hb := range h.Blocks {
+			ret, isRet := hb.Instrs[len(hb.Instrs)-1].(*ssa.Return)
+			if !isRet || hb == h.Recover {
+				continue
+			}
+			if e.recorded(h, hb, depth+1) {
+				some = true
+				continue
+			}
+			// an exit that recorded nothing: the way to the target must exclude it
+			if pc == nil {
+				pc = e.sym.PathCond(f.Blocks[0], target, nil)
+			}
+			resultOf := func(v ssa.Value) (ssa.Value, bool) {
+				if v == ssa.Value(c) && len(ret.Results) == 1 {
+					return unspill(ret.Results[0]), true
+				}
+				if ex, isEx := v.(*ssa.Extract); isEx && ex.Tuple == ssa.Value(c) && ex.Index < len(ret.Results) {
+					return unspill(ret.Results[ex.Index]), true
+				}
+				return nil, false
+			}
+			res, decided := pcEvalFree(pc, func(a *pcAtom) (bool, bool) {
+				if a.x == nil {
+					if rv, ok := resultOf(a.v); ok {
+						if k, isK := rv.(*ssa.Const); isK && k.Value != nil && k.Value.Kind() == constant.Bool {
+							return constant.BoolVal(k.Value), true
+						}
+					}
+					return false, false
+				}
+				if rv, ok := resultOf(a.x); ok && (a.op == token.EQL || a.op == token.NEQ) {
+					if yk, isK := a.y.(*ssa.Const); isK && yk.IsNil() {
+						if k, isK := rv.(*ssa.Const); isK && k.IsNil() {
+							return a.op == token.EQL, true
+						}
+					}
+				}
+				return false, false
+			})
+			if !decided || res {
+				return false
+			}
+		}
+		return some
+	}
+	// blocks reachable from the entry without having recorded anything
+	reach := map[*ssa.BasicBlock]bool{}
+	var walk func(b *ssa.BasicBlock) bool
+	walk = func(b *ssa.BasicBlock) bool { // true: the target is reached unrecorded
+		if reach[b] {
+			return false
+		}
+		reach[b] = true
+		for _, in := range b.Instrs {
+			if recordsFor(in) {
+				return false
+			}
+		}
+		if b == target {
+			return true
+		}
+		for i, s := range b.Succs {
+			if iff, ok := b.Instrs[len(b.Instrs)-1].(*ssa.If); ok {
+				if bo, ok := iff.Cond.(*ssa.BinOp); ok && (bo.Op == token.NEQ || bo.Op == token.EQL) && e.isErrLoad(bo.X) {
+					if k, isK := bo.Y.(*ssa.Const); isK && k.IsNil() && ((bo.Op == token.NEQ && i == 0) || (bo.Op == token.EQL && i == 1)) {
+						continue // an error is known to be recorded on this side
+					}
+				}
+			}
+			if walk(s) {
+				return true
+			}
+		}
+		return false
+	}
+	return !walk(f.Blocks[0])
 }
